@@ -285,6 +285,16 @@ def scripts(rnd, env):
                 Assign(V('q'), Bin('or', V('ENABLED'), fcall('touch', n=I(rnd.randint(0, 5))))),
                 If(Bin('or', Bin('and', V('p'), fcall('touch', n=I(7))), Un('not', V('q'))), [Call(fcall('maybe', n=I(0)))]),
                 SelectFrom('many', 'bs', 'B'), Ret(Un('cardinality', V('bs')))])
+    # operands are evaluated from left to right: an attribute (plain or derived) read as the left operand has the value it
+    # had before an operation in the right operand changed it, and the other way round
+    n0 = rnd.randint(1, 6)
+    out.append([Create('a', 'A'), Assign(Field(V('a'), 'N'), I(n0)),
+                Assign(V('r1'), Bin('+', Field(V('a'), 'N'), ocall(V('a'), 'iop', k=I(rnd.randint(1, 3))))),
+                Assign(V('r2'), Bin('+', Field(V('a'), 'Calc'), ocall(V('a'), 'iop', k=I(1)))),
+                Assign(V('r3'), Bin('-', ocall(V('a'), 'iop', k=I(2)), Field(V('a'), 'N'))),
+                Assign(V('r4'), I(0)),
+                If(Bin('<', Field(V('a'), 'N'), ocall(V('a'), 'sop', k=I(rnd.randint(0, 9)))), [Assign(V('r4'), I(1))]),
+                Ret(Bin('+', Bin('+', Bin('*', V('r1'), I(10000)), Bin('*', V('r2'), I(100))), Bin('+', Bin('*', V('r3'), I(10)), V('r4'))))])
     out += random_scripts(rnd, env)
     return out
 
